@@ -25,7 +25,7 @@ def build_m2c():
 
 
 def entry_text(prog):
-    t = progs.render_prog(prog, skip_funcs={"g3"})
+    t = progs.render_prog(prog, skip_funcs={"g3", "g16"})
     return t.replace(" export main\n", " export entry\n").replace("main: func", "entry: func")
 
 
